@@ -26,6 +26,8 @@ type Case struct {
 	Tree  fsx.Tree `json:"tree"`
 	Opts  pk.Opts  `json:"opts"`
 	Rules *string  `json:"rules,omitempty"` // content of .terraformignore, nil = no file
+	// how the (absolute) destination is named: "" directly | "parentlink" below a symlinked parent | "dstlink" is itself a symlink
+	DstVia string `json:"dst_via,omitempty"`
 }
 
 var subRound = ev.Register("roundtrip", checkRoundTrip)
@@ -76,7 +78,16 @@ func checkRoundTrip(c Case) error {
 	if perr != nil {
 		return fmt.Errorf("Pack failed on a tree of files, directories and in-tree relative links: %v", perr)
 	}
-	uerr, panicked := pk.Unpack(pk.Opts{}, vars, data, dst)
+	spelled := dst
+	switch c.DstVia {
+	case "parentlink":
+		os.Symlink(".", filepath.Join(r, "via"))
+		spelled = filepath.Join(r, "via", "dst")
+	case "dstlink":
+		os.Symlink("dst", filepath.Join(r, "dl"))
+		spelled = filepath.Join(r, "dl")
+	}
+	uerr, panicked := pk.Unpack(pk.Opts{}, vars, data, spelled)
 	if panicked != nil {
 		return fmt.Errorf("Unpack panicked: %v", panicked)
 	}
@@ -196,6 +207,7 @@ func genCase(unpriv bool) func(t *rapid.T) Case {
 		c := Case{Tree: tgen.Gen(t, cfg)}
 		c.Opts.Deref = rapid.Bool().Draw(t, "deref")
 		c.Opts.Ignore = rapid.Bool().Draw(t, "ignore")
+		c.DstVia = rapid.SampledFrom([]string{"", "", "", "", "parentlink", "dstlink"}).Draw(t, "dstvia")
 		return c
 	}
 }
